@@ -27,10 +27,15 @@ RULES = {
     'C01.D': 'every method class is default-constructible without a '
              'reachable raise (otherwise it could never be decoded)',
     'C01.P': 'Pair(E, D) for every wire type used by a method argument',
+    'C01.R': 'composed round trip by rewriting: substituting the encoder\'s '
+             'residual output for the decoder\'s buffer turns every decoded '
+             'argument into the original one, consumed into the encoded '
+             'length, the channel into the channel argument, and every path '
+             'condition of the successful return into True',
 }
 
 
-def analyse_class(chk, ctx, ci, spec_index=None):
+def analyse_class(chk, ctx, ci, axioms=None):
     prog = ctx.prog
     q = ci.short
     site = '%s:%d' % (ci.module.relpath, ci.node.lineno)
@@ -171,6 +176,12 @@ def analyse_class(chk, ctx, ci, spec_index=None):
                'all %d arguments written once and read once' % len(slots)
                if not missing and not extra else
                'not written: %r, unknown: %r' % (missing, extra), site=site)
+    # ---- composed round trip (C01.R)
+    try:
+        composed_round_trip(chk, ctx, ci, q, site, e, f, o, ob, slots,
+                            types, axioms)
+    except AnalysisError as err:
+        chk.undecide('C01.R', q, str(err))
     # arguments the decoder sets that are not slots
     setnames = [e_.detail[0] for e_ in it.effects
                 if e_.kind == 'setattr' and e_.target == o.value[2]]
@@ -178,6 +189,65 @@ def analyse_class(chk, ctx, ci, spec_index=None):
     chk.ob('C01.L', q + ' decoder assigns only arguments', not stray,
            'attributes assigned while decoding: %d (stray: %r)' %
            (len(setnames), stray), site=site, nontrivial=bool(slots))
+
+
+def composed_round_trip(chk, ctx, ci, q, site, e, f, o, ob, slots, types,
+                        axioms):
+    from .. import wire
+    import copy
+    ax = copy.copy(axioms)
+    ax.bit_fields = set()
+    rets = e.get('returns') or []
+    ekn = rets[0].state.kn if len(rets) == 1 else None
+    for sl in slots:
+        if types.get(sl) == 'bit' and ekn is not None:
+            fs = Sym('field', sl)
+            b = ekn.bounds.get(fs)
+            if b is not None and b[0] is not None and b[1] is not None \
+                    and b[0] >= 0 and b[1] <= 1 and \
+                    ekn.types.get(fs, set()) <= {'int', 'bool'} and \
+                    fs in ekn.types:
+                ax.bit_fields.add(sl)
+    kn = T.Knowledge()
+    rw = wire.Rewriter(f.data, e['term'], ax, kn)
+    n, ch, _ = o.value
+    total = rw.length(e['term'], frozenset())
+    n2 = rw.rw(n)
+    ch2 = rw.rw(ch)
+    chk.ob('C01.R', q + ' consumed/channel',
+           T.sub(n2, total) == 0 and ch2 is Sym('param', 'channel_id'),
+           'decode(encode(x, ch)) consumes %s of %s bytes on channel %s' %
+           (T.show(n2)[:60], T.show(total)[:60], T.show(ch2)[:40]),
+           site=site)
+    bad = []
+    for a in o.state.kn.atoms:
+        if not isinstance(a, Sym):
+            continue
+        v = rw.rw(a)
+        if v is not True:
+            bad.append('%s -> %s' % (T.show(a)[:70], T.show(v)[:70]))
+    chk.ob('C01.R', q + ' acceptance', not bad,
+           'all %d path conditions of the successful decode hold on the '
+           'encoder\'s own output' % len(o.state.kn.atoms) if not bad else
+           'not established: %s' % '; '.join(bad[:2]), site=site)
+    wrong = []
+    for sl in slots:
+        got = rw.rw(ob.attrs.get(sl))
+        fs = Sym('field', sl)
+        if types.get(sl) == 'bit':
+            tf = Sym('typed', fs, ('int',), (0, 1))
+            okb = isinstance(got, Sym) and got.op == 'ne' and \
+                got.args[1] == 0 and (got.args[0] is tf or (
+                    isinstance(got.args[0], Sym) and
+                    got.args[0].op == 'shl' and got.args[0].args[0] is tf))
+            if not okb:
+                wrong.append('%s -> %s' % (sl, T.show(got)[:80]))
+        elif got is not fs:
+            wrong.append('%s -> %s' % (sl, T.show(got)[:80]))
+    chk.ob('C01.R', q + ' values', not wrong,
+           'every one of the %d decoded arguments rewrites to the original '
+           'argument (bits to its truth value)' % len(slots) if not wrong
+           else 'does not come back: %s' % '; '.join(wrong[:3]), site=site)
 
 
 def default_construction(chk, ctx, ci):
@@ -218,13 +288,15 @@ def run(chk, ctx):
               'failure conditions, bytes slicing, UTF-8 codec inverse)')
     mapping = ctx.index_mapping()
     classes = [v for _, v in mapping if hasattr(v, 'qualname')]
+    from .. import wire
+    axioms = wire.build_axioms(ctx)
     seen = set()
     for ci in classes:
         if ci.qualname in seen:
             continue
         seen.add(ci.qualname)
         default_construction(chk, ctx, ci)
-        analyse_class(chk, ctx, ci)
+        analyse_class(chk, ctx, ci, axioms)
     # classes deriving from Frame that are not reachable through the mapping
     for ci in ctx.method_classes():
         if ci.qualname not in seen:
